@@ -136,15 +136,34 @@ impl IndexRead {
 
     /// Make an iterator that returns hunks of entries from this index,
     /// skipping any that are not present.
+    ///
+    /// If the index directory can't be listed, an error is logged and the iterator is empty.
+    /// Callers that need to know should use [IndexRead::try_iter_available_hunks].
     pub async fn iter_available_hunks(self) -> IndexHunkIter {
         let _span = debug_span!("iter_hunks", ?self.transport).entered();
-        let hunks = self.hunks_available().await.expect("hunks available"); // TODO: Don't panic
+        let hunks = match self.hunks_available().await {
+            Ok(hunks) => hunks,
+            Err(err) => {
+                error!("Error listing index hunks: {err}");
+                Vec::new()
+            }
+        };
         debug!(?hunks);
         IndexHunkIter {
             hunks: hunks.into_iter(),
             index: self,
             after: None,
         }
+    }
+
+    /// Like [IndexRead::iter_available_hunks], but returns an error if the hunks can't be listed.
+    pub async fn try_iter_available_hunks(self) -> Result<IndexHunkIter> {
+        let hunks = self.hunks_available().await?;
+        Ok(IndexHunkIter {
+            hunks: hunks.into_iter(),
+            index: self,
+            after: None,
+        })
     }
 }
 
